@@ -66,7 +66,7 @@ def bounds(tier):
 
 
 def shards(tier):
-    return [("month", m) for m in range(1, 13)] + [("non", 0), ("unicode", 0), ("leak", 0), ("nofield", 0)]
+    return [("month", m) for m in range(1, 13)] + [("non", 0), ("unicode", 0), ("leak", 0), ("nofield", 0), ("after", 0)]
 
 
 def _sub_non_months():
@@ -215,6 +215,48 @@ def check_zeros(m, acc):
                         )
 
 
+def check_after_others(acc):
+    """Whatever other shipped middlewares did to the entry before (every ordered pair out of a pool of seven: sorted
+    its fields two ways, normalised keys, removed / added enclosings, resolved strings) and wherever the month field
+    stands among fields with keys before and after 'month', the month middleware converts it."""
+    import bibtexparser.middlewares as mw
+
+    pool = [
+        ("SortAlpha", lambda: mw.SortFieldsAlphabeticallyMiddleware()),
+        ("SortCustom(title)", lambda: mw.SortFieldsCustomMiddleware(order=("title",))),
+        ("SortCustom(year,month)", lambda: mw.SortFieldsCustomMiddleware(order=("year", "month"))),
+        ("NormalizeFieldKeys", lambda: mw.NormalizeFieldKeys()),
+        ("RemoveEnclosing", lambda: mw.RemoveEnclosingMiddleware()),
+        ("Resolve", lambda: mw.ResolveStringReferencesMiddleware()),
+        ("SortBlocks", lambda: mw.SortBlocksByTypeAndKeyMiddleware()),
+    ]
+    orders = [("title", "month", "year", "abstract"), ("month", "abstract", "title"), ("abstract", "year", "title", "month"), ("zz", "month", "aa")]
+    for (n1, f1), (n2, f2) in itertools.product(pool, pool):
+        for keys in orders:
+            for m, v in ((1, "jan"), (3, 3), (12, "December"), (5, "05")):
+                for name, M in MWS:
+                    case = {"after": [n1, n2], "field_order": list(keys), "value": repr(v), "middleware": name}
+                    acc.trace(3)
+                    acc.case(nontrivial_key=("after", n1, n2, keys, repr(v), name))
+                    e = Entry("article", "k", [Field(k, v if k == "month" else "{text}") for k in keys])
+                    lib = Library([e, String("jan", "1")])
+                    try:
+                        lib = f2().transform(f1().transform(lib))
+                    except Exception:
+                        acc.count("earlier_stage_rejects_the_value")  # (e.g. RemoveEnclosing on an int: not the month middleware's call)
+                        continue
+                    try:
+                        out = M().transform(lib)
+                        res = out.entries[0].fields_dict["month"].value
+                    except Exception as ex:
+                        acc.violation({"oracle": "never_raises", "exception": type(ex).__name__, "middleware": name}, {"case": case, "observed": repr(ex)[:200], "expected": "no exception"})
+                        continue
+                    exp = expected(name, m)
+                    acc.step(("after", n1, n2, keys, repr(v)), name, canon(res))
+                    if res != exp or type(res) is not type(exp):
+                        acc.violation({"oracle": "month_table", "middleware": name, "spelling": "after other middlewares"}, {"case": case, "observed": repr(res), "expected": repr(exp)})
+
+
 def check_chains(m, acc):
     """Chains of three middlewares applied to the SAME library object(s), as a stack would: the last one decides,
     whatever ran before (metadata left on the entry by earlier stages must not matter)."""
@@ -257,6 +299,20 @@ def check_chains(m, acc):
                 exp = expected(name, m2)
                 if res != exp or type(res) is not type(exp):
                     acc.violation({"oracle": "apply_edit_apply", "middleware": name}, {"case": {"value": v, "edit_then": name, "inplace": inplace}, "observed": repr(res), "expected": repr(exp)})
+                # the same with the INPUT library kept by the caller: transformed, its month edited, transformed again
+                inst = M(allow_inplace_modification=inplace)
+                src = mk_lib(v)
+                acc.trace(2)
+                acc.case(nontrivial_key=("edit-input", repr(v), name, inplace))
+                try:
+                    inst.transform(src)
+                    src.blocks[0].fields_dict["month"].value = ABBR[m2 - 1].upper()
+                    res = inst.transform(src).blocks[0].fields_dict["month"].value
+                except Exception as ex:
+                    acc.violation({"oracle": "never_raises", "exception": type(ex).__name__, "middleware": name}, {"case": {"value": v, "edit_input_then": name}, "observed": repr(ex)[:200], "expected": "no exception"})
+                    continue
+                if res != exp or type(res) is not type(exp):
+                    acc.violation({"oracle": "apply_edit_apply", "middleware": name, "what": "the same input library again"}, {"case": {"value": v, "edit_input_then": name, "inplace": inplace}, "observed": repr(res), "expected": repr(exp)})
 
 
 def _r(v):
@@ -345,6 +401,8 @@ def run_shard(shard, tier, acc):
         check_unchanged(unicode_alphabet(), acc, exception_only=True)
     elif shard[0] == "leak":
         check_leak(acc)
+    elif shard[0] == "after":
+        check_after_others(acc)
     else:
         check_nofield(acc)
 
@@ -355,6 +413,8 @@ def replay(case, acc):
         check_leak(acc)
     elif "no_month_field" in case:
         check_nofield(acc)
+    elif "after" in case:
+        check_after_others(acc)
     else:
         for m in range(1, 13):
             check_month(m, acc)
